@@ -69,17 +69,17 @@ func handleSetRange(params internal.HandlerFuncParams) ([]byte, error) {
 		return []byte(fmt.Sprintf(":%d\r\n", len(newStr))), nil
 	}
 
-	strRunes := []rune(str)
+	strRunes := []byte(str)
 
 	for i := 0; i < len(newStr); i++ {
-		// If we're still withing the length of the original string, replace the rune in strRunes
+		// If we're still withing the length of the original string, replace the byte in strRunes
 		if offset < len(str) {
-			strRunes[offset] = rune(newStr[i])
+			strRunes[offset] = newStr[i]
 			offset += 1
 			continue
 		}
 		// We are past the length of the original string, append the remainder of newStr to strRunes
-		strRunes = append(strRunes, []rune(newStr)[i:]...)
+		strRunes = append(strRunes, []byte(newStr)[i:]...)
 		break
 	}
 
